@@ -14,7 +14,7 @@ From LMStripe Require StripeModel StripeSpec StripeAvx2.
 From LMScan Require Import ScanModel ScanConcrete.
 From LMScan Require DiscBridge.
 From LME2E Require Import E2EBridgeEncode E2EPipeline E2EProofs.
-From LME2E Require Import E2EStatBridge E2EStatScan E2EStatFloat.
+From LME2E Require Import E2EStatBridge E2EStatScan E2EStatMeme E2EStatFloat.
 Import ListNotations.
 Local Open Scope nat_scope.
 
@@ -264,7 +264,9 @@ Lemma text_threshold_meme :
          exists s, score_c01 K S (window M i sq) = Some s /\ (tq - eps <= s)%Q /\
                    (tail_c01 K S bg (s + eps + dd) <= pv)%Q) /\
       (forall i, i + M <= length sq -> (forall x, ~ In (i, x) H) ->
-         exists s, score_c01 K S (window M i sq) = Some s /\ (s < tq + eps)%Q).
+         exists s, score_c01 K S (window M i sq) = Some s /\ (s < tq + eps)%Q) /\
+      ((tq == inject_Z (Z.of_nat M) * offset)%Q \/
+       forall u, (u <= tq - 1 / scale - dd)%Q -> (pv <= tail_c01 K S bg u)%Q).
 Proof.
   intros A C p junk text be old pssm am thr B bg d offset scale pv tq eta HA HC Hbe Hold Htext HM Hrows Hwc Hno HB
          Hthr Heta Hbg Hlast Hnn Hle Hd Hs Hlen Hp0 Hp1 Ht K S M eps dd.
@@ -286,7 +288,16 @@ Proof.
   - intros i x Hin. split; [apply Hhits in Hin; rewrite Hl in Hin; exact (proj1 Hin)|].
     destruct (F1 i x Hin) as (s & Es & G1 & G2). exists s. split; [exact Es|]. unfold eps. split; [lra|].
     eapply Qle_trans; [|exact G2]. apply tail_c01_antitone; auto; [lia|apply qmat_sym_finite; [lia|exact Hfin]|lra].
-  - intros i Hi Hnot. destruct (F2 i Hi Hnot) as (s & Es & G). exists s. split; [exact Es|]. unfold eps. lra.
+  - split.
+    + intros i Hi Hnot. destruct (F2 i Hi Hnot) as (s & Es & G). exists s. split; [exact Es|]. unfold eps. lra.
+    + assert (HlenD : length (dmat S) = M) by (unfold dmat, S; rewrite map_length; exact Hl).
+      destruct (score_minimal_tail (dmat S) bg d offset scale pv tq Hnn Hle Hd Hs
+                  ltac:(rewrite HlenD; exact Hlen) Hp0 Hp1 Ht) as [E|Hmin].
+      * left. rewrite HlenD in E. exact E.
+      * right. intros u Hu. cbv zeta in Hmin. rewrite HlenD in Hmin. fold dd in Hmin.
+        rewrite <- (tail_c01_dist K S bg _ HrowsQ Hbg) in Hmin.
+        eapply Qle_trans; [exact Hmin|].
+        apply tail_c01_antitone; [lia|apply qmat_sym_finite; [lia|exact Hfin]|exact Hbg|exact Hlast|exact Hnn'|exact Hu].
 Qed.
 
 Lemma text_threshold_tfm :
@@ -341,3 +352,78 @@ Proof.
   - intros i Hi Hnot. destruct (F2 i Hi Hnot) as (s & Es & G1 & G2). exists s. split; [exact Es|]. unfold eps.
     split; [lra|exact G2].
 Qed.
+
+(* ---------- Scanner::max(): the best hit is the most significant position, up to 2 eps_f32 ---------- *)
+
+Lemma fin32_not_nan (x : F32.t) : F32.is_finite x = true -> F32.is_nan x = false.
+Proof. destruct x; try discriminate; reflexivity. Qed.
+
+Lemma text_max_significant (A : EM.abc) (C : nat) (p : EI.pipeline) (junk : nat -> EM.sym) (text : list byte)
+      (be : SA.backend) (old : SM.sseq) (pssm : list (list F32.t)) (am : arm) (thr : F32.t) (B : nat) (bg : list Q) :
+  A = GA.dna \/ A = GA.protein ->
+  1 <= C -> SA.backend_typed C be = true -> SS.wf_matrix C (SM.mat old) ->
+  Forall (no_wild A) text ->
+  1 <= length pssm -> Forall (fun row : list F32.t => length row = EM.a_K A) pssm ->
+  e2e_wc (EM.a_K A) pssm = true -> no_overflow (EM.a_K A) pssm = true -> 1 <= B ->
+  length bg = EM.a_K A -> (last bg 0 == 0)%Q -> (forall b, In b bg -> (0 <= b)%Q) ->
+  let K := EM.a_K A in
+  let S := qmat pssm in
+  let M := length pssm in
+  let eps := eps_f32 K pssm in
+  exists (sq : list nat) (r : option (nat * F32.t)),
+    encode_nat p A junk text = Ok sq /\
+    e2e_scan_max A C p junk text be old pssm am thr B = Ok r /\
+    forall q x, r = Some (q, x) ->
+      q + M <= length sq /\
+      exists s, score_c01 K S (window M q sq) = Some s /\ (Qabs (valQ x - s) <= eps)%Q /\
+        forall j, j + M <= length sq ->
+          exists sj, score_c01 K S (window M j sq) = Some sj /\ (sj <= s + 2 * eps)%Q /\
+                     (tail_c01 K S bg (s + 2 * eps) <= tail_c01 K S bg sj)%Q.
+Proof.
+  intros HA HC Hbe Hold Htext HM Hrows Hwc Hno HB Hbg Hlast Hnn K S M eps.
+  destruct (text_hits_nowild A C p junk text be old pssm am thr B HA HC Hbe Hold Htext HM Hrows Hwc HB)
+    as (sq & _ & H1 & _ & _ & _ & Hsq & Hfin & _).
+  assert (Htext' : Forall (LMEncode.EncodeProofs.in_abc A) text)
+    by (eapply Forall_impl; [|exact Htext]; intros b; apply no_wild_in_abc).
+  destruct (text_to_max A C p junk text be old pssm HA HC Hbe Hold Htext' HM Hrows
+              (e2e_wc_finite _ _ Hwc) (c08_main_clause_wc _ _ Hwc) am thr B HB)
+    as (sq' & r & H1' & H2 & _ & H4).
+  rewrite H1 in H1'. inversion H1'; subst sq'. clear H1'.
+  destruct (abc_str_nodup A HA) as (_ & _ & HK).
+  assert (Hl : length (qmat pssm) = length pssm) by apply qmat_length.
+  assert (Hsf : sym_finite K S) by (apply qmat_sym_finite; [unfold K; lia|exact Hfin]).
+  assert (Hscore : forall i, i + M <= length sq ->
+            F32.is_finite (SCO.score_def F32.add F32.zero (K - 1) pssm sq i) = true /\
+            exists s, score_c01 K S (window M i sq) = Some s /\
+                      (Qabs (valQ (SCO.score_def F32.add F32.zero (K - 1) pssm sq i) - s) <= eps)%Q).
+  { intros i Hi.
+    destruct (fscore_error K pssm sq i Hfin Hno) as (Hf & s & Es & Hs).
+    { intros j Hj. rewrite Forall_forall in Hsq. apply Hsq. apply nth_In. unfold M in Hi. lia. }
+    split; [exact Hf|]. exists s. split; [|exact Hs].
+    unfold M, S. rewrite <- Hl. rewrite (score_window K (qmat pssm) sq i) by (rewrite Hl; exact Hi). exact Es. }
+  exists sq, r. split; [exact H1|]. split; [exact H2|].
+  intros q x Er. destruct (H4 q x Er) as (Hq & Hx & _ & Hbest & _).
+  split; [exact Hq|]. destruct (Hscore q Hq) as (Hfq0 & s & Es & Hs0).
+  assert (Hfq : F32.is_finite x = true) by (rewrite Hx; exact Hfq0).
+  assert (Hs : (Qabs (valQ x - s) <= eps)%Q) by (rewrite Hx; exact Hs0).
+  exists s. split; [exact Es|]. split; [exact Hs|].
+  intros j Hj. destruct (Hscore j Hj) as (Hfj & sj & Esj & Hsj).
+  exists sj. split; [exact Esj|].
+  pose proof (Hbest j Hj (fin32_not_nan _ Hfj)) as Hge.
+  apply (ge_valQ x _ Hfq Hfj) in Hge.
+  apply Qabs_Qle_condition in Hs. apply Qabs_Qle_condition in Hsj.
+  assert (Hle : (sj <= s + 2 * eps)%Q) by lra.
+  split; [exact Hle|]. apply tail_c01_antitone; [lia|exact Hsf|exact Hbg|exact Hlast|exact Hnn|exact Hle].
+Qed.
+
+(* ---------- a helper for examples: a property of the Ok value of a result (a [match] on a large closed
+   computation in a statement makes Coq's elaborator reduce the scrutinee; the helper avoids it) ---------- *)
+Definition on_ok {T} (r : res T) (P : T -> Prop) : Prop := match r with Ok a => P a | _ => False end.
+
+Lemma on_ok_inv {T} (r : res T) (P : T -> Prop) : on_ok r P -> exists a, r = Ok a /\ P a.
+Proof. destruct r; cbn [on_ok]; intros H; try contradiction. eauto. Qed.
+
+Definition first_ok {T} (l : list (res T)) (P : T -> Prop) : Prop := match l with Ok a :: _ => P a | _ => False end.
+
+Lemma first_ok_inv {T} (l : list (res T)) (P : T -> Prop) : first_ok l P -> exists a, In (Ok a) l /\ P a.
+Proof. destruct l as [|[a| | |] r]; cbn [first_ok]; try contradiction. intros H. exists a. split; [now left|exact H]. Qed.
